@@ -316,6 +316,10 @@ func (e *envelopeEncryption) loadLatestOrCreateIntermediateKey(ctx context.Conte
 		return e.createIntermediateKey(ctx)
 	}
 
+	if ikEkr.ParentKeyMeta == nil {
+		return nil, errors.New("intermediate key record has no parent key meta")
+	}
+
 	// We've retrieved the latest IK and confirmed its validity. Now let's do the same for its parent key.
 	sk, err := e.getOrLoadSystemKey(ctx, *ikEkr.ParentKeyMeta)
 	if err != nil {
@@ -476,6 +480,10 @@ func (e *envelopeEncryption) loadIntermediateKey(ctx context.Context, meta KeyMe
 
 	if ekr == nil {
 		return nil, errors.New("error loading intermediate key from metastore")
+	}
+
+	if ekr.ParentKeyMeta == nil {
+		return nil, errors.New("intermediate key record has no parent key meta")
 	}
 
 	sk, err := e.getOrLoadSystemKey(ctx, *ekr.ParentKeyMeta)
